@@ -29,6 +29,20 @@ def run(pid, tier):
         negm = area_mem.model_with_neg(work, model, "AllocModel", "Leaky = FALSE\nMaxObjs = 2\nDepth = 5",
                                        "Leaky = TRUE\nMaxObjs = 2\nDepth = 5", "Invariant NoLeak is violated",
                                        props="INVARIANTS NoLeak Consistent\n")
+        # threshold recipes of the adaptive selection tree as fault-injection inputs
+        import re
+        cfg2 = os.path.join(work, "Selector.cfg")
+        with open(cfg2, "w") as f:
+            f.write('SPECIFICATION Spec\nCONSTANT Tier = "%s"\nINVARIANT Emit\nCHECK_DEADLOCK FALSE\n' % tier)
+        r2 = vlib.tlc_or_broken("Selector.tla", cfg2, workers=4, xmx="2g")
+        model.add("Selector[%s]" % tier, r2)
+        sel = re.findall(r'<<\s*"SEL",\s*"[^"]+",\s*"(\w+)",\s*(\d+),\s*(-?\d+),\s*(-?\d+),\s*(-?\d+),\s*(-?\d+),', r2["out"])
+        if len(sel) < 40:
+            raise Broken("Selector.tla produced too few recipes (%d)" % len(sel))
+        recipes = os.path.join(work, "recipes.txt")
+        with open(recipes, "w") as f:
+            for x in sorted(set(sel)):
+                f.write("R %s %s %s %s %s %s\n" % x)
         tiers = ["pinned"] if tier == "quick" else ["pinned", "debug"]
         seeds = [vlib.SEED] if tier == "quick" else [vlib.SEED + k for k in range(4)]
         traces, cmds = [], []
@@ -38,7 +52,7 @@ def run(pid, tier):
                 for s in range(vlib.NCPU):
                     out = os.path.join(work, "af-%s-%d-%02d.ndjson" % (t, sd, s))
                     traces.append((out, sd))
-                    cmds.append(([drv, str(s), str(vlib.NCPU), out], sd))
+                    cmds.append(([drv, str(s), str(vlib.NCPU), out, recipes], sd))
         for sd in seeds:
             vlib.run_many([c for c, s_ in cmds if s_ == sd], env={"VERIF_SEED": sd})
         traces = [t for t, _ in traces]
